@@ -3,7 +3,9 @@ package abi
 import (
 	"math/big"
 
+	pb "github.com/google/go-tdx-guest/proto/tdx"
 	vp "github.com/google/go-tdx-guest/zzvp"
+	"github.com/google/go-tdx-guest/zzvp/q"
 )
 
 // H11e: abi.SignatureToDER is the exact DER encoding of SEQUENCE { INTEGER r, INTEGER s } for every
@@ -89,4 +91,37 @@ func H11f_SignatureToDER_WrongLength() {
 	vp.Assume(len(x) != 64)
 	_, err := SignatureToDER(x)
 	vp.Assert("wrong-length-is-an-error", err != nil)
+}
+
+// H11j: the raw form of an honestly produced quote - QE authentication data of any length the
+// 2-byte size field allows, the largest ones included, optional bytes after the signed data -
+// is accepted by the parser (what RawTdxQuote does first) and parses back to the same signed regions.
+func H11j_RawFormOfHonestQuoteParses() {
+	n := []int{0, 1, 32, 65533, 65534, 65535}[vp.Choose("authLen", 6)]
+	chain := vp.Bytes("chain", 10)
+	sh := q.Shape{AuthLen: n, Chain: chain}
+	if vp.Choose("trailingBytes", 2) == 1 {
+		sh.Extra = vp.Bytes("extra", 5)
+	}
+	m := q.Valid("q_", sh)
+	m.SignedDataSize = uint32(590 + n + len(chain))
+	m.SignedData.CertificationData.Size = uint32(590 + n + len(chain) - 134)
+	raw, err := QuoteToAbiBytes(m)
+	vp.Assert("honest-message-serialises", err == nil)
+	if err != nil {
+		return
+	}
+	res, err := QuoteToProto(raw)
+	vp.Assert("raw-form-of-an-honest-quote-parses", err == nil)
+	if err != nil {
+		return
+	}
+	p := res.(*pb.QuoteV4)
+	got := p.SignedData.CertificationData.QeReportCertificationData.QeAuthData.Data
+	vp.Assert("auth-data-length-survives", len(got) == n)
+	if n > 0 {
+		i := vp.IntRange("i", 0, 65534)
+		vp.Assume(i < n)
+		vp.Assert("auth-data-survives", got[i] == m.SignedData.CertificationData.QeReportCertificationData.QeAuthData.Data[i])
+	}
 }
